@@ -16,7 +16,7 @@ from ..seed import digest
 
 ID = "C16"
 ENVS = ["absent"]
-RUNS = {"quick": 48000, "thorough": 480000}
+RUNS = {"quick": 96000, "thorough": 960000}
 RULE = ("case = (constructor route, dataset with insertion orders, history of 1-12 mutators / derivations incl. "
         "removals of foreign or of all elements); distinct = distinct case digest; non-trivial = at least one mutator "
         "changed the dataset or one derived object was checked")
